@@ -170,6 +170,47 @@ export async function run(ctx) {
     }
   }
 
+  // (a') injectivity of the string encoding, format-agnostic: strings that differ must reach the hasher
+  // as different byte streams, and Const(s) / { [s]: null } built with b.* must get pairwise distinct
+  // digests (they disagree on the value s / { [s]: null })
+  if (ctx.shard === 0) {
+    const { b } = client;
+    const atoms = ["", "a", "b", "ab", "é", "ß", "€", "₹", "日", "本", "語", "人", "名", "前", "字", "😀", "𝒳", "\u0000", " ", "\u0800", "\uffff", "\u07ff", "\u0080"];
+    const pool = new Set(atoms);
+    const r = new Rng(ctx.seed, "C13-strings");
+    while (pool.size < 600) {
+      const n = 1 + r.below(4);
+      let t = "";
+      for (let i = 0; i < n; i++) t += r.pick(atoms);
+      pool.add(t);
+    }
+    for (const fam of ["stream", "const", "key"]) {
+      const seen = new Map();
+      for (const str of pool) {
+        let d;
+        if (fam === "stream") {
+          const w = new hashmod.Hash256Writer();
+          w.updateString(str);
+          d = Buffer.concat(w.__log ?? []).toString("hex");
+          w.digestHex();
+        } else if (fam === "const") d = b.Const(str).hash256();
+        else d = b.Object({ [str]: b.Null() }).hash256();
+        ctx.judged();
+        const prev = seen.get(d);
+        if (prev !== undefined && prev !== str) {
+          const cls = (x) => ([...x].some((c) => c.codePointAt(0) > 0xffff) ? "astral" : [...x].some((c) => c.codePointAt(0) >= 0x800) ? "3-byte" : [...x].some((c) => c.codePointAt(0) >= 0x80) ? "2-byte" : "ascii");
+          ctx.violation({
+            signature: `distinct-strings-share-${fam === "stream" ? "byte-stream" : "digest"}|${fam}|${cls(prev)}/${cls(str)}`,
+            clause: "string-encoding-injective",
+            detail: `${JSON.stringify(prev)} and ${JSON.stringify(str)} ${fam === "stream" ? "reach the hasher as the same bytes" : `give the same hash256 as ${fam === "const" ? "Const(s)" : "{ [s]: null }"}`}`,
+            replay: { kind: "note", text: `${fam}: ${JSON.stringify(prev)} vs ${JSON.stringify(str)}` },
+          });
+        } else seen.set(d, str);
+      }
+    }
+    ctx.count("string_injectivity_pool", pool.size);
+  }
+
   const buckets = new Map(); // digest -> {vector, example}
   const pool = COMMON_POOL();
   const nProgs = ctx.share(3000, 60000);
